@@ -51,9 +51,23 @@ def run(ctx):
     obs = json.load(open(outp))
     table = collections.defaultdict(dict)
     evaluated = 0
+    lines_at = collections.defaultdict(dict)
     for o in obs:
         if o["m"] > 0:
             table[o["checker"]][(o["m"], int(o["value"]))] = o["reported"]
+            lines_at[(o["checker"], o["m"])][int(o["value"])] = sorted(o.get("lines") or [])
+            # one measured construct per file: it is reported at most once, whatever the threshold
+            if len(o.get("lines") or []) > 1:
+                ctx.fail("ReportedMoreThanOnce %s" % o["checker"], "%s.%s=%s reports the single construct of measure %d %d times (lines %s)"
+                         % (o["checker"], o["param"], o["value"], o["m"], len(o["lines"]), o["lines"]), {"obs": o})
+    # relaxing a threshold never adds a diagnostic line, tightening never removes one (the set of lines, not only 'any')
+    for (c, m), by_n in lines_at.items():
+        ns_ = sorted(by_n)
+        for a, b in zip(ns_, ns_[1:]):
+            la, lb = set(by_n[a]), set(by_n[b])
+            if not (la <= lb or lb <= la):
+                ctx.fail("NotMonotone %s lines" % c, "%s.%s: the diagnostics at %d (lines %s) and at %d (lines %s) on the construct of measure %d are not nested"
+                         % (c, PARAM[c], a, sorted(la), b, sorted(lb), m), {"checker": c, "m": m})
     # (1) integrator path vs the specification's predictions
     for c, t in table.items():
         off = 5 if c == "commentedOutCode" else 0      # measure of the comment construct starts at 6 runes
